@@ -1220,4 +1220,226 @@ theorem accepted_of_documented (files : Files) (hm : MagicFree files) (fl : Mach
     ⟨L, R, L', R', hL, hR, by simpa [List.all_eq_true] using h0, hLm, hRm, hform, rfl⟩⟩
 
 
+
+theorem rewriteLeaf_inv {u v : JVal} (h : rewriteLeaf u = v) (hv : ∀ f, v ≠ .float f) : u = v := by
+  unfold rewriteLeaf at h
+  by_cases h1 : u = .str "NaN"
+  · simp [h1] at h; exact absurd h.symm (hv _)
+  · by_cases h2 : u = .str "inf"
+    · simp [h2] at h; exact absurd h.symm (hv _)
+    · by_cases h3 : u = .str "-inf"
+      · simp [h3] at h; exact absurd h.symm (hv _)
+      · simpa [h1, h2, h3] using h
+
+/-- under `strictMerge` a user value is stored rewritten (a leaf) or as a dictionary (a dictionary);
+    a key the user omits keeps the default -/
+theorem side_rel_true (d S S' : Dict) (hnd : (Dict.keys S).Nodup) (hdl : ∀ k v, Dict.lookup d k = some v → v.isObj = false)
+    (h : updateConf true d S = .ok S') :
+    (∀ k, Dict.lookup S k = none → Dict.lookup S' k = Dict.lookup d k) ∧
+    (∀ k u, Dict.lookup S k = some u → ∃ v', Dict.lookup S' k = some v' ∧
+      (u.isObj = true → v'.isObj = true) ∧ (u.isObj = false → v' = rewriteLeaf u)) := by
+  obtain ⟨_, hnone, hsome⟩ := Merge.updateConf_inv true S d S' hnd h
+  refine ⟨hnone, ?_⟩
+  intro k u hk
+  obtain ⟨v', hv', hl'⟩ := hsome k u hk
+  refine ⟨v', hl', ?_, ?_⟩
+  · intro huo
+    cases u <;> simp [JVal.isObj] at huo
+    rename_i sub
+    cases hd : Dict.lookup d k with
+    | none =>
+      rw [hd, Merge.updateVal_obj_none] at hv'
+      cases hu : updateConf true [] sub <;> simp [hu, Except.map] at hv'
+      rw [← hv']; rfl
+    | some dv =>
+      rw [hd, Merge.updateVal_obj_other true dv sub (hdl k dv hd)] at hv'
+      simp at hv'
+  · intro huo
+    rw [Merge.updateVal_leaf true _ u huo] at hv'
+    cases hv'; rfl
+
+theorem defaults_leaves : (∀ k v, Dict.lookup dL k = some v → v.isObj = false) ∧
+    (∀ k v, Dict.lookup dR k = some v → v.isObj = false) := by
+  constructor <;> intro k v h <;> simp only [dL, dR, Dict.lookup] at h <;>
+    (repeat (split at h <;> try (cases h; rfl))) <;> cases h
+
+/-- a side `check_input_section` accepted is not rejected by the documentation (one side, all
+    clauses but `disp`) -/
+theorem side_not_reject (files : Files) (d S S' : Dict) (hd : d = dL ∨ d = dR) (hnd : (Dict.keys S).Nodup)
+    (hm : updateConf true d S = .ok S') (im : FileInfo) (himg : imgOf files S' = some im)
+    (hb : sideBaseOk files S' im = true) :
+    S.all (fun kv => sideKeys.contains kv.1) = true ∧ imU files S = some im ∧
+    nodataVerdict (getU S "nodata") = .accept ∧
+    auxVerdict files (some im) (getU S "mask") = .accept ∧
+    auxVerdict files (some im) (getU S "classif") = .accept ∧
+    auxVerdict files (some im) (getU S "segm") = .accept := by
+  have hdl : ∀ k v, Dict.lookup d k = some v → v.isObj = false := by
+    rcases hd with rfl | rfl
+    · exact defaults_leaves.1
+    · exact defaults_leaves.2
+  have hdimg : Dict.lookup d "img" = none := by rcases hd with rfl | rfl <;> rfl
+  obtain ⟨hnone, hsome⟩ := side_rel_true d S S' hnd hdl hm
+  simp only [sideBaseOk, Bool.and_eq_true] at hb
+  obtain ⟨⟨⟨⟨hkeys, hnod⟩, hmask⟩, hclassif⟩, hsegm⟩ := hb
+  have haux : ∀ k, auxOk files im (Dict.lookup S' k) = true → auxVerdict files (some im) (getU S k) = .accept := by
+    intro k hk
+    cases hl : Dict.lookup S k with
+    | none => simp [getU, hl, auxVerdict]
+    | some u =>
+      obtain ⟨v', hv', ho, hlf⟩ := hsome k u hl
+      rw [hv'] at hk
+      cases huo : u.isObj
+      · rw [hlf huo] at hk
+        simp [getU, hl, auxVerdict_some, ofBool_accept, hk]
+      · have := ho huo
+        cases v' <;> simp [JVal.isObj] at this
+        simp [auxOk] at hk
+  refine ⟨?_, ?_, ?_, haux _ hmask, haux _ hclassif, haux _ hsegm⟩
+  · rw [List.all_eq_true]
+    intro kv hkv
+    have hl := Merge.lookup_of_mem S kv.1 kv.2 hnd hkv
+    obtain ⟨v', hv', _, _⟩ := hsome kv.1 kv.2 hl
+    exact (List.all_eq_true.1 hkeys) (kv.1, v') (Merge.mem_of_lookup S' kv.1 v' hv')
+  · obtain ⟨p, hp, hf⟩ := (imgOf_some files S' im).1 himg
+    cases hl : Dict.lookup S "img" with
+    | none => rw [hnone _ hl, hdimg] at hp; cases hp
+    | some u =>
+      obtain ⟨v', hv', ho, hlf⟩ := hsome _ u hl
+      rw [hp] at hv'; cases hv'
+      cases huo : u.isObj
+      · have := rewriteLeaf_inv (hlf huo).symm (by intro f; simp)
+        subst this
+        simp [imU, hl, fileOf, hf]
+      · have := ho huo; simp [JVal.isObj] at this
+  · cases hl : Dict.lookup S "nodata" with
+    | none => simp [getU, hl, nodataVerdict]
+    | some u =>
+      obtain ⟨v', hv', ho, hlf⟩ := hsome _ u hl
+      rw [hv'] at hnod
+      simp only at hnod
+      cases huo : u.isObj
+      · rw [hlf huo] at hnod
+        simp [getU, hl, nodataVerdict_accept, hnod]
+      · have := ho huo
+        cases v' <;> simp [JVal.isObj] at this
+        simp [nodataOk] at hnod
+
+theorem rangeOk_not_reject (files : Files) (im : FileInfo) (v : JVal) (h : rangeOk v = true) :
+    leftDispVerdict files (some im) (some v) ≠ .reject := by
+  cases v with
+  | list items =>
+    match items with
+    | [a, b] =>
+      cases a <;> cases b <;> simp [rangeOk, intOf?] at h <;> simp [leftDispVerdict, intOf?, ofBool, h]
+    | [] => simp [rangeOk] at h
+    | [_] => simp [rangeOk] at h
+    | _ :: _ :: _ :: _ => simp [rangeOk] at h
+  | _ => simp [rangeOk] at h
+
+/-- what a completed `disp` tells about the user's `disp` (under `strictMerge`) -/
+theorem disp_back (d S S' : Dict) (hnd : (Dict.keys S).Nodup)
+    (hdl : ∀ k v, Dict.lookup d k = some v → v.isObj = false)
+    (h : updateConf true d S = .ok S') (v : JVal) (hv : Dict.lookup S' "disp" = some v)
+    (hvo : v.isObj = false) (hvf : ∀ f, v ≠ .float f) :
+    (Dict.lookup S "disp" = some v ∧ getU S "disp" = some v) ∨
+    (Dict.lookup S "disp" = none ∧ getU S "disp" = none ∧ Dict.lookup d "disp" = some v) := by
+  obtain ⟨hnone, hsome⟩ := side_rel_true d S S' hnd hdl h
+  cases hl : Dict.lookup S "disp" with
+  | none =>
+    right
+    refine ⟨rfl, by simp [getU, hl], ?_⟩
+    rw [← hnone _ hl, hv]
+  | some u =>
+    left
+    obtain ⟨v', hv', ho, hlf⟩ := hsome _ u hl
+    rw [hv] at hv'; cases hv'
+    cases huo : u.isObj
+    · have := rewriteLeaf_inv (hlf huo).symm hvf
+      subst this
+      exact ⟨rfl, by simp [getU, hl, ← hlf huo]⟩
+    · rw [ho huo] at hvo; cases hvo
+
+/-- **documented-as-refused ⇒ refused** (with the source's `update_conf`, which refuses a dictionary
+    given where the default is not one): an `input` section the documentation rejects
+    (`inputVerdict = reject`: a missing / extra section or key, an unreadable image, different sizes,
+    a `nodata` that is not an integer or NaN, an auxiliary image that is not `None` / a readable image of
+    the right size, a disparity that is not `[min, max]` in order or a well-formed grid, a right
+    disparity that does not go with the left one, …) never passes `check_input_section`. -/
+theorem refused_of_documented_reject (files : Files) (fl : MachineFlags) (hg : fl.strictMerge = true)
+    (kvs : Dict) (hwf : NodupSection kvs) (h : inputVerdict files (some (.obj kvs)) = .reject) (out : Dict) :
+    checkInputSection files fl inputSchemas [("input", .obj kvs)] ≠ .ok out := by
+  intro hok
+  obtain ⟨L, R, L', R', hL, hR, hkk, hLm, hRm, hform, _⟩ :=
+    (checkInputSection_ok_iff files fl kvs out hwf.1).1 hok
+  rw [hg] at hLm hRm
+  obtain ⟨iml, imr, himl', himr'⟩ := formOk_img hform
+  simp only [formOk, himl', himr', Bool.and_eq_true, beq_iff_eq] at hform
+  obtain ⟨⟨⟨⟨hw, hh⟩, hLb⟩, hRb⟩, hdisp⟩ := hform
+  obtain ⟨l1, l2, l3, l4, l5, l6⟩ := side_not_reject files dL L L' (Or.inl rfl) (hwf.2 _ _ hL) hLm iml himl' hLb
+  obtain ⟨r1, r2, r3, r4, r5, r6⟩ := side_not_reject files dR R R' (Or.inr rfl) (hwf.2 _ _ hR) hRm imr himr' hRb
+  -- the disparities
+  have hd : leftDispVerdict files (some iml) (getU L "disp") ≠ .reject ∧
+      rightDispVerdict files (some imr) (leftIsGridU L) (getU R "disp") ≠ .reject := by
+    have hrnull : Dict.lookup R' "disp" = some .null →
+        rightDispVerdict files (some imr) (leftIsGridU L) (getU R "disp") ≠ .reject := by
+      intro hr
+      rcases disp_back dR R R' (hwf.2 _ _ hR) defaults_leaves.2 hRm .null hr rfl (by intro f; simp) with
+        ⟨_, hgu⟩ | ⟨_, hgu, _⟩ <;> simp [hgu, rightDispVerdict]
+    cases hld : Dict.lookup L' "disp" with
+    | none => simp [hld, dispsOk] at hdisp
+    | some ld =>
+      cases hrd : Dict.lookup R' "disp" with
+      | none => cases ld <;> simp [hld, hrd, dispsOk] at hdisp
+      | some rd =>
+        rw [hld, hrd] at hdisp
+        cases ld with
+        | list items =>
+          cases rd <;> simp [dispsOk] at hdisp
+          rcases disp_back dL L L' (hwf.2 _ _ hL) defaults_leaves.1 hLm _ hld rfl (by intro f; simp) with
+            ⟨_, hgu⟩ | ⟨_, _, hdd⟩
+          · rw [hgu]
+            exact ⟨rangeOk_not_reject files iml _ hdisp, hrnull hrd⟩
+          · simp [dL, Dict.lookup] at hdd
+        | str p =>
+          rcases disp_back dL L L' (hwf.2 _ _ hL) defaults_leaves.1 hLm _ hld rfl (by intro f; simp) with
+            ⟨hlu, hgu⟩ | ⟨_, _, hdd⟩
+          · rw [hgu]
+            cases rd <;> simp [dispsOk] at hdisp
+            · exact ⟨by simp [leftDispVerdict, ofBool, hdisp], hrnull hrd⟩
+            · rename_i q
+              rcases disp_back dR R R' (hwf.2 _ _ hR) defaults_leaves.2 hRm _ hrd rfl (by intro f; simp) with
+                ⟨_, hgr⟩ | ⟨_, _, hdd⟩
+              · rw [hgr]
+                have hlg : leftIsGridU L = true := by simp [leftIsGridU, hlu]
+                exact ⟨by simp [leftDispVerdict, ofBool, hdisp.1], by simp [rightDispVerdict, ofBool, hlg, hdisp.2]⟩
+              · simp [dR, Dict.lookup] at hdd
+          · simp [dL, Dict.lookup] at hdd
+        | _ => simp [dispsOk] at hdisp
+  -- no clause rejects
+  unfold inputVerdict at h
+  rw [inputClauses_sides files kvs L R hL hR, foldl_and_reject] at h
+  rcases h with h | ⟨c, hc, hcr⟩
+  · cases h
+  · simp only [sideClauses_eq, List.cons_append, List.nil_append, List.mem_cons, List.mem_nil_iff, or_false] at hc
+    have hsec : kvs.all (fun kv => kv.1 == "left" || kv.1 == "right") = true := by
+      rw [List.all_eq_true]; intro kv hkv
+      rcases hkk kv hkv with e | e <;> simp [e]
+    rcases hc with rfl | rfl | rfl | rfl | rfl | rfl | rfl | rfl | rfl | rfl | rfl | rfl | rfl | rfl | rfl | rfl
+    · simp [hsec, ofBool] at hcr
+    · simp only [l1] at hcr; simp [ofBool] at hcr
+    · simp [l2, ofBool] at hcr
+    · simp [l3] at hcr
+    · simp [l2, l4] at hcr
+    · simp [l2, l5] at hcr
+    · simp [l2, l6] at hcr
+    · simp only [l2] at hcr; exact hd.1 (by simpa using hcr)
+    · simp only [r1] at hcr; simp [ofBool] at hcr
+    · simp [r2, ofBool] at hcr
+    · simp [r3] at hcr
+    · simp [r2, r4] at hcr
+    · simp [r2, r5] at hcr
+    · simp [r2, r6] at hcr
+    · simp only [r2] at hcr; exact hd.2 (by simpa using hcr)
+    · simp [l2, r2, ofBool, hw, hh] at hcr
+
 end Pandora.C17W
